@@ -115,6 +115,9 @@ class Engine(EngineBase):
             jobs.append({"sp": sp, "doc": {"i": i, "u": uni} if rng.random() < 0.7 else {}, "files": files})
         keys = sorted(U)
         spec = rng.choice(["none", "none", "false", "fmt", "fmt", "fmt", "fn", "fn"])
+        if uni in ("pathy", "escaping") and rng.random() < 0.6:
+            # values with path components matter where they are spelled into the path by a format string
+            spec = "fmt"
         path = None
         if spec == "false":
             path = False
@@ -131,6 +134,9 @@ class Engine(EngineBase):
                 f"{k0}_{{{k0}}}/id/{{job.id}}",
                 f"{{job.sp.{k0}}}/{{job.id}}",
             ])
+            if uni in ("pathy", "escaping") and rng.random() < 0.7:
+                path = rng.choice(["/".join(f"{k}/{{{k}}}" for k in keys), "_".join(f"{{{k}}}" for k in keys),
+                                   "/".join(f"{k}/{{{k}}}" for k in reversed(keys))])
         elif spec == "fn":
             path = ["fn", rng.choice(["id", "id_nested", "const", "first_key", "leafnode", "leafnode_rev"])]
         target = rng.choice(["dir", "dir", ".zip", ".zip", ".tar", ".tar.gz", ".tar.bz2", ".tar.xz"])
